@@ -727,7 +727,22 @@ def _run_direct(case):
         for j in range(n):
             if not _eqx(cm.mat[i, j], M[i][j]):
                 return "views", "constructed matrix element [%d,%d]=%r, given %r" % (i, j, float(cm.mat[i, j]), M[i][j])
-    return _check_views_and_summaries(cm, True)
+    r = _check_views_and_summaries(cm, True)
+    if r:
+        return r
+    # the same clauses on the same values held in column-major (Fortran) memory order -- what an in-place taxa permutation leaves
+    # behind, or a transposed array handed to the constructor; a query may not use the stored buffer as scratch space
+    cmf = _cls(case.get("klass", "molecular"))(mat=numpy.asfortranarray(arr.copy()), taxa=None if taxa is None else taxa.copy())
+    r = _check_views_and_summaries(cmf, True)
+    if r:
+        return r[0], "(matrix in Fortran memory order) " + r[1]
+    if n >= 2:
+        cmr = _cls(case.get("klass", "molecular"))(mat=arr.copy(), taxa=None if taxa is None else taxa.copy())
+        cmr.reorder_taxa(numpy.arange(n)[::-1].copy())
+        r = _check_views_and_summaries(cmr, True)
+        if r:
+            return r[0], "(after reorder_taxa) " + r[1]
+    return None
 
 
 def _run(case):
